@@ -598,6 +598,9 @@ func runE2E(cfg hx.Config, meta *hx.Meta) ([]string, error) {
 		return "package " + pk + "\n\nfunc f(m map[" + kt + "]bool) {\n\t_ = deriveUnique(deriveKeys(m))\n}\n"
 	}
 	mods = append(mods, map[string]string{"a/a.go": nested1("a", "string"), "b/b.go": nested1("b", "int"), "c/c.go": nested1("c", "string")})
+	// a directory that only holds an external test package (./... includes it) next to generated packages
+	mods = append(mods, map[string]string{"a/a.go": nested1("a", "string"), "b/b.go": "package b\n\nfunc g(xs []int) []int { return deriveUnique(xs) }\n",
+		"xt/x_test.go": "package xt_test\n\nimport \"testing\"\n\nfunc TestX(t *testing.T) {}\n"})
 	ncorpus = len(mods)
 	for i := 0; i < nmod; i++ {
 		rr := r.Fork(uint64(i))
@@ -620,7 +623,15 @@ func runE2E(cfg hx.Config, meta *hx.Meta) ([]string, error) {
 		hx.WriteFiles(root, files)
 		var pkgs []string
 		seenDir := map[string]bool{}
+		var extOnly []string // directories that hold nothing but an external test package
 		for f := range files {
+			if d := filepath.Dir(f); strings.HasPrefix(d, "xt") {
+				if !seenDir[d] {
+					seenDir[d] = true
+					extOnly = append(extOnly, d)
+				}
+				continue
+			}
 			if d := filepath.Dir(f); !seenDir[d] {
 				seenDir[d] = true
 				pkgs = append(pkgs, d)
@@ -658,6 +669,15 @@ func runE2E(cfg hx.Config, meta *hx.Meta) ([]string, error) {
 			variant{"import-paths", ".", imp(pkgs)},
 			variant{"import-paths-reversed", ".", imp(rev(pkgs))},
 		)
+		// a directory without source files of its own named next to a real package, from inside that package
+		for _, x := range extOnly {
+			for _, p := range pkgs {
+				variants = append(variants,
+					variant{"inside " + p + " with ../" + x, p, []string{".", "../" + x}},
+					variant{"inside " + p + " after ../" + x, p, []string{"../" + x, "."}},
+				)
+			}
+		}
 		// "every run": also runs that start from the file the previous run left behind
 		variants = append(variants,
 			variant{"again ./... (over the previous output)", ".", []string{"./..."}},
